@@ -48,7 +48,9 @@ async fn do_proxy_request(
         ));
     };
     // Needs an owned copy so that the upgrade task can access it
-    let host = Bytes::copy_from_slice(target.host().as_bytes());
+    // `Authority::host` keeps the brackets of an IPv6 literal, which is not a host
+    // the server can resolve.
+    let host = Bytes::copy_from_slice(crate::arg::remove_brackets(target.host()).as_bytes());
     let port = target.port_u16().unwrap_or_else(|| {
         if req.uri().scheme() == Some(&Scheme::HTTPS) {
             443
